@@ -7,3 +7,4 @@ pub mod keccak;
 pub mod ops;
 pub mod poseidon;
 pub mod tree;
+pub mod wtns;
